@@ -35,7 +35,7 @@ SURVEY_ALIAS = {
 }
 CHOICES_ALIAS = {"label": ["caption"], "name": ["value"], "list_name": ["list name"], "image": ["media::image"], "audio": ["media::audio"], "video": ["media::video"]}
 SETTINGS_ALIAS = {"form_id": ["id_string", "set_form_id"], "form_title": ["title", "set_form_title"]}
-KNOWN_SURVEY = set(SURVEY_ALIAS) | {"hint", "guidance_hint", "default", "trigger", "choice_filter", "parameters", "required", "constraint"}  # ("disabled" is not part of the spec: its header is matched literally)
+KNOWN_SURVEY = set(SURVEY_ALIAS) | {"hint", "guidance_hint", "default", "trigger", "choice_filter", "parameters", "required", "constraint", "intent"}  # ("disabled" is not part of the spec: its header is matched literally)
 TYPE_ALIAS = {"select_one": ["select one", "select1"], "select_multiple": ["select all that apply"], "integer": ["int"], "image": ["photo"],
               "begin group": ["begin_group"], "end group": ["end_group"], "begin repeat": ["begin_repeat"], "end repeat": ["end_repeat"],
               "select_one_from_file": ["select one from file"], "select_multiple_from_file": ["select multiple from file"]}
@@ -50,7 +50,7 @@ KINDS = ["header-case", "alias", "single-colon", "type-alias", "truth", "quotes"
 @st.composite
 def _cases(draw):
     prof = dict(gen.PROFILES["broad"], p_table_list=0.08, p_or_other=0.1, p_meta=0.1, p_params=0.5, p_choice_nolabel=0.05, settings="some",
-                p_extra_sheets=0.0, text_ctl=False)
+                p_extra_sheets=0.0, text_ctl=False, p_intent=0.15)
     g = gen.G(draw, prof)
     form = gen.build_form(draw, prof, g=g)
     if g.p("_", 0.2):
@@ -283,7 +283,8 @@ def to_xlsx(wb, sheet_case_seed=None):
         key = nm if nm in wb else nm.lower()
         title = nm
         if sheet_case_seed is not None and key in wb:
-            title = rnd(sheet_case_seed, "case", nm).choice([nm.upper(), nm.capitalize(), nm])
+            # documented: sheet names are matched whatever their case and surrounding spaces
+            title = rnd(sheet_case_seed, "case", nm).choice([nm.upper(), nm.capitalize(), nm, nm + " ", " " + nm.capitalize(), nm.upper() + "  "])
         ws = book.create_sheet(title=title)
         if key in wb and isinstance(wb[key], list):
             hs = list(wb[key + "_header"][0])
